@@ -18,7 +18,7 @@ func init() {
 		NonTrivial: func(o *Outcome) bool {
 			return o.Hist.FaultFired["net:down"]+o.Hist.FaultFired["net:blackhole"] > 0 && o.Hist.Probes["batch-checked"] > 0
 		},
-		Rule:         "seeded plans: one upstream with 1-4 servers (primary / backup mixes), policy first / roundRobin / random / leastconn, optional http ping path; a scripted sequence of network events (server refuses connections, black-holes them until the check times out, accepts again); after every event the simulated clock is advanced by 30-41s (settle: rest of a running check round + next tick + one full round of sequential 3s-timeout probes), then a sequential batch of 4-12 requests. The health checker is the real library code driven by the fake ticker; only the TCP dial is simulated. Oracle after settle: every request reaches a server that is up, a backup only if no primary is up, round robin spreads a batch evenly over the healthy primaries (counts differ by <= 1), with no server up every request gets a 5xx at once without reaching any origin, and traffic resumes by itself after recovery. non-trivial = at least one outage was injected and a batch checked; distinct = distinct history hash",
+		Rule:         "seeded plans: one upstream with 1-4 servers (primary / backup mixes), policy first / roundRobin / random / leastconn, optional http ping path, in 30% of the plans beside a second upstream with a location of its own; a scripted sequence of network events (server refuses connections, black-holes them until the check times out, accepts again); after every event the simulated clock is advanced by 30-41s (settle: rest of a running check round + next tick + one full round of sequential 3s-timeout probes), then a sequential batch of 4-12 requests. The health checker is the real library code driven by the fake ticker; only the TCP dial is simulated. Oracle after settle: every request reaches a server that is up, a backup only if no primary is up, round robin spreads a batch evenly over the healthy primaries (counts differ by <= 1), with no server up every request gets a 5xx at once without reaching any origin, and traffic resumes by itself after recovery. non-trivial = at least one outage was injected and a batch checked; distinct = distinct history hash",
 		ExpectProbes: []string{"batch-checked", "batch-all-down", "batch-backup-only", "batch-after-recovery", "round-robin-batch", "blackhole-settled", "reload-of-unchanged-upstream"},
 	})
 }
@@ -41,6 +41,14 @@ func genC19(g *Gen) *Plan {
 		Locations: []LocationCfg{{Name: "l1", Upstream: "u1"}},
 		Servers:   []ServerCfg{{Addr: srvAddr, Locations: []string{"l1"}, Cache: "c1"}},
 	}}
+	if g.p(0.3) {
+		// the instance serves a second upstream as well (its own location): building one must not
+		// depend on the other
+		c := &p.Configs[0]
+		c.Upstreams = append(c.Upstreams, UpstreamCfg{Name: "u2", Policy: "first", Servers: []UpstreamSrv{{Addr: "http://" + originB}}})
+		c.Locations = append(c.Locations, LocationCfg{Name: "l2", Upstream: "u2", Prefixes: []string{"/side"}})
+		c.Servers[0].Locations = append(c.Servers[0].Locations, "l2")
+	}
 	p.Default = Reply{Status: 200, Size: 20, Header: [][2]string{{"Cache-Control", "no-cache"}}}
 	batch := func() {
 		n := g.n(4, 12)
